@@ -156,10 +156,12 @@ class SetupRiemannProblem(object):
         self.pressure_solution = fsolve(lambda x: top_function(x) - bottom_function(x), guess_pressure)[0]
         # the interpolated guess may lie on the other side of an initial
         # pressure than the solution: classify the waves by the solution
-        morphology = self.morphology
-        top_function, bottom_function = \
-            self.determine_state_functions(self.pressure_solution)
-        if self.morphology != morphology:
+        for _ in range(5):
+            morphology = self.morphology
+            top_function, bottom_function = \
+                self.determine_state_functions(self.pressure_solution)
+            if self.morphology == morphology:
+                break
             self.pressure_solution = fsolve(lambda x: top_function(x) - bottom_function(x), self.pressure_solution)[0]
         self.deflection_angle_solution = top_function(self.pressure_solution)
     
